@@ -155,6 +155,9 @@ class Check:
             return 3
 
         results = solve.discharge(self.obs, timeout_s=timeout_s) if self.obs else []
+        for ob, r in zip(self.obs, results):
+            if ob.meta.get("signature_for"):
+                r.meta["signature_for"] = ob.meta["signature_for"]
         can_res = solve.discharge(self.canaries, timeout_s=10, want_model=False) if self.canaries else []
         for r in can_res:
             if r.status == "proved":
@@ -233,15 +236,16 @@ class Check:
             missing = sorted(locked - {r.name for r in results})
             if missing:
                 print(f"NOTE property={pid} {len(missing)} obligation(s) of the baseline lock were not generated, e.g. {missing[:3]}")
-        n_proved = sum(1 for r in results if r.status == "proved")
-        print(f"[{pid}] tier={self.tier} obligations={len(results)} proved={n_proved} undecided={len(self.undecided)} "
+        claims = [r for r in results if not r.meta.get("signature_for") and not r.meta.get("known_finding")]
+        n_proved = sum(1 for r in claims if r.status == "proved")
+        print(f"[{pid}] tier={self.tier} obligations={len(claims)} proved={n_proved} undecided={len(self.undecided)} "
               f"violations={len(violations)} known={len(set(known_lines))} "
               f"bounded={'n/a' if bounded is None else bounded.get('evaluations')} wall={time.time() - self.t0:.1f}s")
         if violations:
             return 1
         if not results and bounded is None:
             return 2
-        if bounded_args is not None and not bounded_ok and n_proved < len(results):
+        if bounded_args is not None and not bounded_ok and n_proved < len(claims):
             return 2
         if bounded_args is not None and not bounded_ok:
             return 3
@@ -318,7 +322,8 @@ class Check:
         os.makedirs(os.path.join(VERIF, "evidence"), exist_ok=True)
         # obligations matched to a recorded finding are reported separately: they are not claimed as proved and not counted
         kf = [r for r in results if r.meta.get("known_finding")]
-        counted = [r for r in results if not r.meta.get("known_finding")]
+        # signature obligations only characterise recorded findings ("the code does exactly the known wrong thing"): not claims
+        counted = [r for r in results if not r.meta.get("known_finding") and not r.meta.get("signature_for")]
         n = len(counted)
         proved = sum(1 for r in counted if r.status == "proved")
         backends = {}
@@ -372,3 +377,74 @@ class Check:
         }
         with open(os.path.join(VERIF, "evidence", f"{self.pid}.json"), "w") as f:
             json.dump(ev, f, indent=1, default=str)
+
+
+# ------------------------------------------------------------------------------------------
+# reductions: matching a reduction site of the code against a specification sum (DESIGN 4.4)
+# ------------------------------------------------------------------------------------------
+
+class PrefixSum:
+    """P_g(k) = sum_{t < k} g(t) as an uninterpreted function with ground unfolding instances."""
+
+    def __init__(self, name, g, sort="real"):
+        self.name = name
+        self.g = g
+        rs = z3.RealSort() if sort == "real" else z3.IntSort()
+        self.P = z3.Function(f"prefix_{name}", z3.IntSort(), rs)
+
+    def range_sum(self, a, b):
+        """sum_{t=a}^{b} g(t)  (empty when b < a)."""
+        return self.P(T.zi(b) + 1) - self.P(T.zi(a))
+
+    def unfold(self, *ks):
+        """Definition instances: P(0) = 0, P(k+1) = P(k) + g(k)."""
+        out = [self.P(0) == 0]
+        for k in ks:
+            k = T.zi(k)
+            out.append(self.P(k + 1) == self.P(k) + T.zr(self.g(k)))
+        return out
+
+
+def site_of(term):
+    """The ReductionSite behind a reduction UF application (or None)."""
+    from . import npmodel as M
+    if T.is_sym(term) and z3.is_app(term) and term.decl().name() in M.Reduction.sites:
+        return M.Reduction.sites[term.decl().name()]
+    return None
+
+
+def find_sites(term):
+    from . import npmodel as M
+    out = []
+    if not T.is_sym(term):
+        return out
+    for u in T.subterms(term).values():
+        if z3.is_app(u) and u.decl().name() in M.Reduction.sites:
+            out.append(u)
+    return out
+
+
+def match_sum(chk, name, site_app, ps, a, b, hyps, func=None, meta=None, assumptions=()):
+    """Obligations that the code's reduction `site_app` (a sum) denotes sum_{t=a}^{b} g(t) for the prefix sum `ps`:
+        sum-range : the code's range has the same number of terms (after the shift t_code = t_spec - a + lo_code), or the extra
+                    terms on either side are all zero (sum-extra-zero);
+        sum-term  : for a fresh t in the range the code's summand equals g(t).
+    Returns the equation  site == P(b+1) - P(a)  to be used as a hypothesis by later obligations."""
+    site = site_of(site_app)
+    if site is None or site.kind != "sum":
+        chk.undecided.append((f"{chk.pid}/{name}", "no sum reduction site behind the term"))
+        return z3.BoolVal(True)
+    oidx = [site_app.arg(k) for k in range(site_app.num_args())]
+    lo_c, hi_c = T.zi(site.lo(oidx)), T.zi(site.hi(oidx))
+    a, b = T.zi(a), T.zi(b)
+    t = z3.Int(f"t_{name.replace('/', '_')}")
+    shift = lo_c - a
+    # same number of terms (empty ranges on both sides are fine)
+    same = z3.Or(z3.And(hi_c - lo_c == b - a), z3.And(hi_c < lo_c, b < a))
+    chk.add(f"{name}/sum-range", list(hyps), same, kind="sum-range", func=func, meta=meta, assumptions=assumptions)
+    # signature used by recorded findings of the form "the series stops one term early": same start, exactly the last term missing
+    sig = chk.add(f"{name}/sum-range#signature-last-term-missing", list(hyps), z3.And(hi_c - lo_c == b - a - 1, b >= a), kind="signature", assumptions=assumptions)
+    sig.meta["signature_for"] = f"{chk.pid}/{name}/sum-range"
+    term_c = T.zr(site.term(oidx, t + shift))
+    chk.add(f"{name}/sum-term", list(hyps) + [t >= a, t <= b], term_c == T.zr(ps.g(t)), kind="sum-term", func=func, meta=meta, assumptions=assumptions)
+    return site_app == ps.range_sum(a, b)
